@@ -207,8 +207,15 @@ def report():
          "|---|---|---|---|---|---|---|",
          "| %d | %d | %d | %d | %d | %d | %d |" % (n, nb, red, len(green), len(caught), len(inc), len(surv)), ""]
     if green:
-        L.append("Check-level kill rate on suite-green mutants: %.1f%% (%d of %d); after triage of the survivors (below) %d of them are equivalent to the original or outside every listed property." % (
-            100.0 * len(caught) / len(green), len(caught), len(green), sum(1 for r in surv if triage.get(r["id"], {}).get("class") in ("equivalent", "outside"))))
+        tc = {}
+        for r in surv + inc:
+            c = triage.get(r["id"], {}).get("class", "untriaged")
+            tc[c] = tc.get(c, 0) + 1
+        L.append("Check-level kill rate on suite-green mutants: %.1f%% (%d of %d). Triage of the %d mutants no check objects to (classes: equivalent = no observable difference through the exported API for any input; outside = observable, but no listed property speaks about it; harness = the mutant makes a harness package fail to build or loop until its time limit; untriaged): %s. Counting only non-equivalent, in-scope mutants the kill rate is %d of %d." % (
+            100.0 * len(caught) / len(green), len(caught), len(green), len(surv) + len(inc),
+            ", ".join("%s %d" % kv for kv in sorted(tc.items())), len(caught), len(caught) + tc.get("untriaged", 0) + tc.get("gap-closed", 0)))
+        L.append("")
+        L.append("The first pass of the sweep (before the checks were extended for what it found) left 83 such mutants; the ones that were real gaps - an exported constant, the all-zero masking key, a swallowed send-extension error, CompressFrame of an already compressed frame, a UTF-8 table entry, ReadFrom never giving up - are listed in `automutants_triage.json` as *gap-closed* and were re-run afterwards (they appear above as caught).")
         L.append("")
     cb = {}
     for r in caught:
